@@ -496,6 +496,23 @@ def install(eng):
         yield st, SV(V.mk_int(z3.Length(z3.Select(st.lists, V.Val.a(args[0].t)))))
 
     eng.method_models[(list, "__len__")] = Model("list.__len__", list_len)
+    def list_extend(eng, st, args, kw):
+        from .loops import _as_symiter
+
+        self, it = args
+        a = V.Val.a(self.t)
+        try:
+            src = _as_symiter(eng, it, st)
+            more = src.seq
+        except Unsupported:
+            more = None
+        if more is None:
+            # an iterable whose items are not known as a sequence: some items are appended (over-approximation)
+            more = z3.Const(V.fresh_name("extended_by"), V.ValSeq)
+        st.lists = z3.Store(st.lists, a, z3.Concat(z3.Select(st.lists, a), more))
+        yield st, None
+
+    eng.method_models[(list, "extend")] = Model("list.extend", list_extend)
     eng.method_models[(list, "append")] = Model("list.append", list_append)
     eng.method_models[(list, "pop")] = Model("list.pop", list_pop)
 
